@@ -353,11 +353,12 @@ impl Tr {
         let mut ops = std::vec![];
         for k in 0..self.nids {
             let idb = self.w.bytes(&self.w.ids[k]);
-            let st = match c.try_get_operation_state(&idb) { Ok(Ok(v)) => st_name(v), _ => "Unset" };
-            let fl = |r: Result<Result<bool, soroban_sdk::ConversionError>, Result<soroban_sdk::Error, soroban_sdk::InvokeError>>| b(matches!(r, Ok(Ok(true))));
+            let mut trap = false;
+            let st = match c.try_get_operation_state(&idb) { Ok(Ok(v)) => st_name(v), _ => { trap = true; "Unset" } };
+            let mut fl = |r: Result<Result<bool, soroban_sdk::ConversionError>, Result<soroban_sdk::Error, soroban_sdk::InvokeError>>| match r { Ok(Ok(v)) => b(v), _ => { trap = true; b(false) } };
             let flags = format!("{} {} {} {}", fl(c.try_operation_exists(&idb)), fl(c.try_is_operation_pending(&idb)), fl(c.try_is_operation_ready(&idb)), fl(c.try_is_operation_done(&idb)));
-            let lg = match c.try_get_operation_ledger(&idb) { Ok(Ok(v)) => format!("{}", v), _ => "(-1)".to_string() };
-            ops.push(pair(&n(k as u64), &format!("(OV9 {} {} {})", lg, st, flags)));
+            let lg = match c.try_get_operation_ledger(&idb) { Ok(Ok(v)) => format!("{}", v), _ => { trap = true; "(-1)".to_string() } };
+            ops.push(pair(&n(k as u64), &format!("(OV9 {} {} {} {})", lg, st, flags, b(trap))));
         }
         let adm = match c.try_get_admin() { Ok(Ok(v)) => v.map(|a| aix(&a)), _ => Some(n(99)) };
         let mut hr = std::vec![]; let mut cnt = std::vec![]; let mut ra = std::vec![]; let mut mem = std::vec![];
@@ -387,6 +388,7 @@ impl Tr {
                 let o = self.ops[*k].clone();
                 let e = self.w.e.clone();
                 let args: Vec<Val> = (self.w.addrs[o.target].clone(), Symbol::new(&e, fn_name(o.f)), self.w.av_vals(&o.av), self.w.bytes(&o.pred), self.w.salt(o.salt), *d, self.w.addrs[*p].clone()).into_val(&e);
+                if au.selfe.is_some() { let a = Av::Sched(Box::new(o.clone()), *d, *p); self.w.av_ix(&a); }
                 let r = self.w.invoke(18, args, au);
                 let res = r.map(|v| { let idb = BytesN::<32>::try_from_val(&e, &v).unwrap(); Some(self.w.id_ix(idb.to_array())) });
                 let oc = self.w.op_coq(&o); let ac = self.w.authz_coq(au);
@@ -396,6 +398,7 @@ impl Tr {
                 let o = self.ops[*k].clone();
                 let e = self.w.e.clone();
                 let args: Vec<Val> = (self.w.addrs[o.target].clone(), Symbol::new(&e, fn_name(o.f)), self.w.av_vals(&o.av), self.w.bytes(&o.pred), self.w.salt(o.salt), x.map(|a| self.w.addrs[a].clone())).into_val(&e);
+                if au.selfe.is_some() { let a = Av::Exec(Box::new(o.clone()), *x); self.w.av_ix(&a); }
                 let r = self.w.invoke(19, args, au);
                 let tgt_ok = o.target == TGT && o.f == 0;
                 let oc = self.w.op_coq(&o); let ac = self.w.authz_coq(au);
@@ -404,13 +407,27 @@ impl Tr {
             C::Cancel(ix, k, au) => {
                 let e = self.w.e.clone();
                 let args: Vec<Val> = (self.w.bytes(&self.w.ids[*ix]), self.w.addrs[*k].clone()).into_val(&e);
+                if au.selfe.is_some() { let a = Av::Cancel(self.w.ids[*ix], *k); self.w.av_ix(&a); }
                 let r = self.w.invoke(20, args, au);
                 let ac = self.w.authz_coq(au);
                 (format!("CancelOp {} {} {}", n(*ix as u64), n(*k as u64), ac), "cancel_op".into(), r.map(|_| None))
             }
             C::Admin(f, av, au) => {
+                // the situation the call meets (part of the label): who is admin, are executors configured, state of the
+                // operation (controller, f, av, pred, salt) named by the first descriptor
+                let sit = {
+                    let adm = match self.admin() { Some(a) if a == SELF => "adminS", Some(_) => "adminE", None => "admin0" };
+                    let ex = if self.holders(2).is_empty() { "x0" } else { "x1" };
+                    let st = match au.selfe.as_ref().and_then(|se| se.metas.first()) {
+                        Some(m) => match (0..self.ops.len()).find(|i| { let o = &self.ops[*i]; o.target == SELF && o.f == *f && o.av == *av && o.pred == m.pred && o.salt == m.salt }) {
+                            Some(i) => st_name(self.state_of(self.op_ids[i])), None => "NoOp" },
+                        None => "NoMeta" };
+                    format!("{},{},{}", adm, ex, st)
+                };
                 let args = self.w.av_vals(av);
                 let r = self.w.invoke(*f, args, au);
+                // the argument vector of the call itself is measured too (the monitor relates it to the contexts of the entry)
+                self.w.av_ix(av);
                 let ac = self.w.authz_coq(au);
                 let text = match (f, av) {
                     (10, Av::U32(d)) => format!("UpdateDelay {} {}", d, ac),
@@ -425,9 +442,17 @@ impl Tr {
                 };
                 let selfpath = au.selfe.is_some();
                 let tg = if au.tag.is_empty() { String::new() } else { format!(":{}", au.tag) };
-                (text, format!("{}{}{}", fn_name(*f), if selfpath || !au.tag.is_empty() { "+selfauth" } else { "" }, tg), r.map(|_| None))
+                (text, format!("{}{}{}@{}", fn_name(*f), if selfpath { "+selfauth" } else { "" }, tg, sit), r.map(|_| None))
             }
             C::CheckAuth(metas, cxs, xa) => {
+                let sit = {
+                    let ex = if self.holders(2).is_empty() { "x0" } else { "x1" };
+                    let st = match (cxs.first(), metas.first()) {
+                        (Some(Cx::C(t, f, av)), Some(m)) => match (0..self.ops.len()).find(|i| { let o = &self.ops[*i]; o.target == *t && o.f == *f && o.av == *av && o.pred == m.pred && o.salt == m.salt }) {
+                            Some(i) => st_name(self.state_of(self.op_ids[i])), None => "NoOp" },
+                        _ => "NoPair" };
+                    format!("{},{}", ex, st)
+                };
                 let e = self.w.e.clone();
                 let ctrl = self.w.addrs[SELF].clone();
                 // executors' require_auth_for_args entries
@@ -450,7 +475,7 @@ impl Tr {
                 let cs: std::vec::Vec<String> = cxs.iter().map(|c| self.w.cx_coq(c)).collect();
                 let xs: std::vec::Vec<String> = xa.iter().map(|(x, o)| { let oc = self.w.op_coq(o); pair(&n(*x as u64), &oc) }).collect();
                 let shape = if metas.len() < cxs.len() { "short" } else if metas.len() > cxs.len() { "long" } else { "eq" };
-                (format!("CheckAuth {} {} {}", list(&ms), list(&cs), list(&xs)), format!("check_auth_{}", shape), match r { Ok(()) => Some(None), Err(_) => None })
+                (format!("CheckAuth {} {} {}", list(&ms), list(&cs), list(&xs)), format!("check_auth_{}@{}", shape, sit), match r { Ok(()) => Some(None), Err(_) => None })
             }
             C::Advance(k) => {
                 let nn = self.w.now.checked_add(*k).filter(|v| *v <= CAP).expect("generator keeps the ledger <= CAP");
@@ -793,9 +818,11 @@ fn main() {
         let id_u3 = tr.w.ids[tr.op_ids[k_u3]];
         let s_c = mk(20, Av::Cancel(id_u3, SELF), 60);
         let k_sc = tr.add_op(s_c.clone());
+        let r_c = mk(17, Av::Renounce(3, SELF), 61);                                                     // the controller renounces its canceller role
+        let k_rc = tr.add_op(r_c.clone());
         let x = if nexec == 0 { None } else { Some(X1) };
         // before the grants: the controller named as executor / proposer does not hold the roles
-        for k in [k_ge, k_gp, k_gc, k_u1, k_u2, k_u4, k_ext, k_sx, k_ss, k_sc] { tr.call(&mut out, &C::Schedule(k, 2, P1, pa(P1))); }
+        for k in [k_ge, k_gp, k_gc, k_u1, k_u2, k_u4, k_ext, k_sx, k_ss, k_sc, k_rc] { tr.call(&mut out, &C::Schedule(k, 2, P1, pa(P1))); }
         tr.call(&mut out, &C::Advance(2));
         tr.call(&mut out, &C::Admin(10, u1.av.clone(), good_self(&u1, Some(SELF))));                 // executor = controller, not (yet) an executor
         tr.call(&mut out, &C::Admin(g_e.f, g_e.av.clone(), good_self(&g_e, x)));
@@ -832,8 +859,82 @@ fn main() {
             if let Some(x) = x { if x != SELF { au.exec.push((x, s_c.clone())); } }
             tr.call(&mut out, &C::Cancel(tr.op_ids[k_u3], SELF, au));
         }
+        tr.call(&mut out, &C::Admin(17, r_c.av.clone(), Authz::default()));                            // renounce_role by the controller: not without consuming
+        tr.call(&mut out, &C::Admin(17, r_c.av.clone(), good_self(&r_c, x)));
+        tr.call(&mut out, &C::Admin(17, r_c.av.clone(), good_self(&r_c, x)));
         tr.call(&mut out, &C::Admin(10, u4.av.clone(), good_self(&u4, x)));
         tr.finish(&mut out, &format!("directed/controller-holds-roles-exec{}", nexec));
+    }
+    // the life cycle of an admin offer on a self-administered controller: expiry, cancellation (live_until = 0), re-issue,
+    // acceptance only by the account named by the last live offer
+    for hc in 0..2usize {
+        let mut tr = Tr::new_h(&mut rng, 900, 1, &[P1], &[], None, 1, true, hc);
+        let pa = |p: usize| { let mut a = Authz::default(); a.plain.push(p); a };
+        let z = [0u8; 32];
+        let mk = |av: Av, salt: u8| OpD { target: SELF, f: 14, av, pred: z, salt };
+        let t1 = mk(Av::Transfer(ADM, 925), 70); let t2 = mk(Av::Transfer(OUT, 2000), 71); let t0 = mk(Av::Transfer(OUT, 0), 72); let t3 = mk(Av::Transfer(ADM, 3000), 73);
+        let ks: std::vec::Vec<usize> = [&t1, &t2, &t0, &t3].iter().map(|o| tr.add_op((*o).clone())).collect();
+        let pt = |p: usize, t: &'static str| { let mut a = Authz::default(); a.plain.push(p); a.tag = t; a };
+        tr.call(&mut out, &C::Admin(16, Av::Nil, pt(ADM, "no-offer")));                                 // nothing offered
+        for &k in ks.iter() { tr.call(&mut out, &C::Schedule(k, 1, P1, pa(P1))); }
+        tr.call(&mut out, &C::Advance(1));
+        tr.call(&mut out, &C::Admin(14, t1.av.clone(), good_self(&t1, None)));                           // offer to ADM until 925
+        tr.call(&mut out, &C::Admin(16, Av::Nil, pt(OUT, "not-named")));                                // not the named account
+        tr.call(&mut out, &C::Advance(40));                                                             // past live_until (and past min_temp ttl)
+        tr.call(&mut out, &C::Admin(16, Av::Nil, pt(ADM, "offer-expired")));                            // expired
+        tr.call(&mut out, &C::Admin(14, t2.av.clone(), good_self(&t2, None)));                           // offer to OUT
+        tr.call(&mut out, &C::Admin(14, t0.av.clone(), good_self(&t0, None)));                           // cancelled again
+        tr.call(&mut out, &C::Admin(16, Av::Nil, pt(OUT, "offer-cancelled")));                          // cancelled offer
+        tr.call(&mut out, &C::Admin(14, t3.av.clone(), good_self(&t3, None)));                           // re-issued to ADM
+        tr.call(&mut out, &C::Admin(16, Av::Nil, pt(OUT, "not-named")));
+        { let mut a = Authz::default(); a.tag = "no-signature"; tr.call(&mut out, &C::Admin(16, Av::Nil, a)); }
+        tr.call(&mut out, &C::Admin(16, Av::Nil, pt(ADM, "named")));                                    // accepted
+        tr.call(&mut out, &C::Admin(16, Av::Nil, pt(ADM, "offer-consumed")));                           // consumed
+        tr.finish(&mut out, &format!("directed/admin-offer-lifecycle-host{}", hc));
+    }
+    // an external admin hands the controller over to itself: accept_admin_transfer by the controller needs a consuming authorisation
+    for nexec in 0..=1usize {
+        let execs: std::vec::Vec<usize> = [X1][..nexec].to_vec();
+        let mut tr = Tr::new_h(&mut rng, 950, 1, &[P1], &execs, Some(ADM), 1, true, nexec);
+        let pa = |p: usize| { let mut a = Authz::default(); a.plain.push(p); a };
+        let acc = OpD { target: SELF, f: 16, av: Av::Nil, pred: [0u8; 32], salt: 80 };
+        let u = OpD { target: SELF, f: 10, av: Av::U32(4), pred: [0u8; 32], salt: 81 };
+        let k_acc = tr.add_op(acc.clone()); let k_u = tr.add_op(u.clone());
+        let x = if nexec == 0 { None } else { Some(X1) };
+        tr.call(&mut out, &C::Schedule(k_acc, 1, P1, pa(P1)));
+        tr.call(&mut out, &C::Schedule(k_u, 1, P1, pa(P1)));
+        tr.call(&mut out, &C::Advance(1));
+        tr.call(&mut out, &C::Admin(16, Av::Nil, good_self(&acc, x)));                                   // nothing offered to the controller yet
+        tr.call(&mut out, &C::Admin(10, Av::U32(4), good_self(&u, x)));                                  // admin is external: the consuming path is not asked
+        tr.call(&mut out, &C::Admin(14, Av::Transfer(SELF, 1500), pa(ADM)));                            // offered to the controller
+        tr.call(&mut out, &C::Admin(16, Av::Nil, Authz::default()));                                    // not without consuming
+        tr.call(&mut out, &C::Admin(16, Av::Nil, pa(ADM)));
+        tr.call(&mut out, &C::Admin(16, Av::Nil, good_self(&acc, x)));                                   // the controller accepts: consumes its operation
+        tr.call(&mut out, &C::Admin(10, Av::U32(4), pa(ADM)));                                          // the former admin has no power any more
+        tr.call(&mut out, &C::Admin(10, Av::U32(4), good_self(&u, x)));                                  // the timelock path is in force
+        tr.finish(&mut out, &format!("directed/handover-to-controller-exec{}", nexec));
+    }
+    // __check_auth called directly: |descriptors| <, =, > |contexts| against Ready / Waiting / Done operations
+    for nexec in 0..=1usize {
+        let execs: std::vec::Vec<usize> = [X1][..nexec].to_vec();
+        let mut tr = Tr::new_h(&mut rng, 600, 1, &[P1], &execs, None, 3, true, nexec);
+        let pa = |p: usize| { let mut a = Authz::default(); a.plain.push(p); a };
+        let x = if nexec == 0 { None } else { Some(X1) };
+        let o: std::vec::Vec<OpD> = tr.ops.clone();
+        let cx = |d: &OpD| Cx::C(d.target, d.f, d.av.clone());
+        let me = |d: &OpD| MetaD { pred: d.pred, salt: d.salt, exec: x };
+        let xa = |ds: &[&OpD]| -> std::vec::Vec<(usize, OpD)> { match x { Some(x) => ds.iter().map(|d| (x, (*d).clone())).collect(), None => std::vec![] } };
+        for k in 0..3usize { tr.call(&mut out, &C::Schedule(k, 1 + (k as u32 / 2) * 5, P1, pa(P1))); }
+        tr.call(&mut out, &C::CheckAuth(std::vec![me(&o[0])], std::vec![cx(&o[0])], xa(&[&o[0]])));                          // waiting
+        tr.call(&mut out, &C::Advance(1));
+        tr.call(&mut out, &C::CheckAuth(std::vec![me(&o[0]), me(&o[1])], std::vec![cx(&o[0])], xa(&[&o[0], &o[1]])));          // more descriptors than contexts
+        tr.call(&mut out, &C::CheckAuth(std::vec![me(&o[0])], std::vec![cx(&o[0]), cx(&o[1])], xa(&[&o[0], &o[1]])));          // fewer
+        tr.call(&mut out, &C::CheckAuth(std::vec![], std::vec![], std::vec![]));                                               // none at all: nothing to authorise
+        tr.call(&mut out, &C::CheckAuth(std::vec![me(&o[0]), me(&o[2])], std::vec![cx(&o[0]), cx(&o[2])], xa(&[&o[0], &o[2]]))); // second one still waiting: nothing consumed
+        tr.call(&mut out, &C::CheckAuth(std::vec![me(&o[0]), me(&o[1])], std::vec![cx(&o[0]), cx(&o[1])], xa(&[&o[0], &o[1]]))); // two ready operations
+        tr.call(&mut out, &C::CheckAuth(std::vec![me(&o[0])], std::vec![cx(&o[0])], xa(&[&o[0]])));                          // done
+        tr.call(&mut out, &C::CheckAuth(std::vec![me(&o[2])], std::vec![Cx::Other], xa(&[&o[2]])));
+        tr.finish(&mut out, &format!("directed/check-auth-direct-exec{}", nexec));
     }
     // cancelling needs the CANCELLER role, scheduling the PROPOSER role - not the other one
     {
@@ -883,7 +984,7 @@ fn main() {
     if thorough { for which in 0..8 { for state in 0..=4u8 { for nexec in 0..=2usize { directed(&mut out, &mut rng, nexec, state, 0, which); let sh = 1 + rng.below(14); directed(&mut out, &mut rng, nexec, state, sh, which); } } } }
 
     // ---------- random adaptive traces ----------
-    let ntraces = if thorough { 1500 } else { 190 } * scale;
+    let ntraces = if std::env::var("VERIF_DIRECTED_ONLY").is_ok() { 0 } else { (if thorough { 1500 } else { 190 }) * scale };
     for t in 0..ntraces {
         let nexec = rng.below(3) as usize;
         let execs: std::vec::Vec<usize> = [X1, X2][..nexec].to_vec();
